@@ -54,6 +54,7 @@ func cmdMulti(args []string) int {
 	out := fs.String("out", "trace.ndjson", "trace")
 	thorough := fs.Bool("thorough", false, "thorough")
 	scale := fs.Int("scale", 100, "size of the data in percent (the race build is slow)")
+	big := fs.Int("big", 1, "pipelines with one BWT block above 4 MiB (first round only)")
 	fs.Parse(args)
 	w, err := tr.Open(*out)
 	if err != nil {
@@ -114,6 +115,15 @@ func cmdMulti(args []string) int {
 			run.W.Headerless = false
 			run.W.Jobs = pick(rnd, []uint{1, 2, 3, 4, 8, 16})
 			pipes = append(pipes, pipe{w: run.W, rjobs: pick(rnd, []uint{1, 2, 4, 8, 16}), shape: run.Shape, size: size, seed: run.Seed, parts: run.Parts, lens: pick(rnd, [][]int{nil, {1024}, {7, 1, 300}, {65536}, {3, 70000}, {4096}})})
+		}
+		// one block in the multi-MiB regime of the inverse BWT, its size recorded in the header, more jobs than blocks: the Reader
+		// hands all its jobs to the one block and the inverse BWT runs its chunk tasks concurrently (helper goroutines inside a task)
+		if r == 0 {
+			for bi := 0; bi < *big; bi++ {
+				size := 4<<20 + 70001 + 4096*bi
+				pipes = append(pipes, pipe{w: kz.Cfg{Transform: []string{"BWT", "TEXT+BWT"}[bi%2], Entropy: "NONE", Block: 8 << 20, Jobs: 2, Ck: 32, Hint: int64(size)},
+					rjobs: []uint{4, 8, 3}[bi%3], shape: "text", size: size, seed: *seed*7717 + int64(9000+bi), parts: nil, lens: nil})
+			}
 		}
 		// alone, one after the other
 		iso := make([][3]string, len(pipes))
